@@ -5,7 +5,7 @@
    implementation) are decided by the translation-validation tie in tools/props/c01.py. *)
 From Coq Require Import String.
 From Aelys Require Import Base.Tactics Model.Lang Model.Eval Extracted.OptConsts Model.Opt.Fold
-  Proofs.EvalProofs Proofs.FoldProofs.
+  Model.PureEval Proofs.EvalProofs Proofs.FoldProofs Proofs.PureProofs.
 Local Open Scope Z_scope.
 
 (* whenever the folder replaces `a op b` by a literal, that literal is exactly the value the
@@ -44,6 +44,37 @@ Proof. exact fold_refuses_div_zero. Qed.
 Theorem C01_fold_refuses_out_of_range : forall (op : binop) (a b : Z),
   in_vm_range a = false \/ in_vm_range b = false -> fold_int_binary op a b = None.
 Proof. exact fold_refuses_out_of_range. Qed.
+
+(* the folder's whole bottom-up traversal preserves the meaning of every pure expression
+   (literals, variables, operators, short-circuit and/or, if-expressions) in every
+   environment: same value or same error *)
+Theorem C01_fold_expr_preserves_pure : forall (rho : venv) (e : expr),
+  peval rho (fold_expr e) = peval rho e.
+Proof. exact fold_expr_preserves_pure. Qed.
+
+(* ... and that pure semantics IS the evaluator of Model/Eval.v on such expressions *)
+Theorem C01_peval_is_eval : forall (e : expr) fuel depth env st,
+  pure e = true -> (esize e <= fuel)%nat ->
+  eval_expr fuel depth env st e = (st, peval (rho_of env st) e).
+Proof. exact eval_expr_pure. Qed.
+
+(* hence: on the full evaluator, folding a pure expression changes neither the state nor the
+   result, whatever the environment and store *)
+Theorem C01_fold_expr_preserves_eval : forall (e : expr) fuel depth env st,
+  pure e = true -> (esize e <= fuel)%nat ->
+  eval_expr fuel depth env st (fold_expr e) = eval_expr fuel depth env st e.
+Proof. exact fold_expr_preserves_eval. Qed.
+
+(* constant propagation kernel: replacing variables by the literals they are bound to is
+   meaning-preserving exactly when the constant table agrees with the environment ... *)
+Theorem C01_subst_consts_preserves : forall (c : string -> option expr) (rho : venv) (e : expr),
+  consts_agree c rho -> peval rho (subst_consts c e) = peval rho e.
+Proof. exact subst_consts_preserves. Qed.
+
+(* ... and is wrong without it (the shadowing defect class repaired in /repo: a stale table) *)
+Theorem C01_subst_consts_needs_agreement :
+  exists c rho e, peval rho (subst_consts c e) <> peval rho e.
+Proof. exact subst_consts_needs_agreement. Qed.
 
 (* non-vacuity: the folder does fold at the edges, and refuses just beyond them *)
 Example C01_nonvacuous :
